@@ -508,6 +508,28 @@ def vector_order_lost(db, f, vec):
     return True, "only passed to %s, which just redistributes the elements into associative containers" % ", ".join(sorted({c["f"].split("::")[-1] for c, _ in callees}))
 
 
+# keys that distinct elements can share: a comparator whose last word is one of these ties, and std::sort then keeps
+# the incoming (address) order of the tied elements
+NON_INJECTIVE_KEYS = {
+    "get_simple_name": "the unscoped name: classes of the same name in different namespaces/classes share it",
+    "get_name": "the unscoped name",
+    "size": "a size is shared by many elements",
+    "get_num_parameters": "a count is shared by many elements",
+}
+
+
+def _tie_key(e):
+    """The non-injective accessor a final comparison `a->K() < b->K()` rests on, if any."""
+    c = G.cmp_atom(peel(e))
+    if not c:
+        return None
+    for side in (c[1], c[2]):
+        s = strip_casts(peel(side))
+        if s is not None and s.get("k") == "call" and callee_short(s) in NON_INJECTIVE_KEYS:
+            return callee_short(s)
+    return None
+
+
 def comparator_total_tree(body):
     rets = [r for r in walk(body) if r.get("k") == "ret" and r.get("e") is not None] if body else []
     if not rets:
@@ -519,6 +541,9 @@ def comparator_total_tree(body):
     c = G.cmp_atom(e)
     if c and c[1] is not None and c[2] is not None and "*" in (c[1].get("t") or "") and c[1].get("k") == "ref":
         return False, "compares the pointers themselves"
+    k = _tie_key(e)
+    if k:
+        return False, "ends in a comparison of %s() (%s): distinct elements tie and keep their incoming address order" % (k, NON_INJECTIVE_KEYS[k])
     return True, "ends in a comparison of a final key"
 
 
@@ -536,4 +561,7 @@ def comparator_total(g):
         c = G.cmp_atom(x) if x.get("k") in ("bin", "call") else None
         if c and c[0] in ("<", ">") and all((local_ref(y) or {}).get("d") in pids for y in (c[1], c[2])):
             return False, "compares its pointer arguments themselves (address order)"
+    k = _tie_key(last["e"])
+    if k:
+        return False, "ends in a comparison of %s() (%s): distinct elements tie and keep their incoming address order" % (k, NON_INJECTIVE_KEYS[k])
     return True, "ends in a comparison of a final key and never compares the pointers themselves"
